@@ -613,6 +613,8 @@ def origins(fn, through_calls='wrappers', extra_wrappers=()):
                     new = {q + ('#discr',) for q in place_paths(r['p'])}
                 elif rv == 'repeat':
                     new = operand_paths(r['o'])
+                if '*' in s['d'].get('p', []):
+                    continue      # store through a pointer: not an origin of the pointer itself
                 d = s['d']['l']
                 if not new <= org[d]:
                     org[d] |= new
